@@ -154,6 +154,29 @@ func (w *c15World) body() {
 			} else {
 				w.idle = append(w.idle, &c15Idle{cl: cl, stopsSeen: w.stops})
 			}
+		case 'x', 'y':
+			// a TLS client whose handshake fails: x sends something that is no handshake,
+			// y presents a certificate the server does not trust; both then go away
+			raw, err := vrt.Dial(":6380")
+			if !w.running {
+				if err == nil {
+					w.fail("port-open-after-stop", pos+": dial to the stopped server was not refused")
+					raw.Close()
+				}
+				continue
+			}
+			if err != nil {
+				w.fail("not-serving:dial-refused", pos+": Start/Restart returned nil but a dial to the TLS port is refused")
+				continue
+			}
+			if step == 'x' {
+				raw.Write([]byte(strings.Repeat("\x16\x03\x01junk!", 6)))
+				raw.ReadOrQuiet(make([]byte, 128))
+			} else {
+				tls.Client(raw, w.kit.clientTLSConfig(w.kit.Clients["self-signed"])).Handshake()
+			}
+			raw.Close()
+			vrt.WaitQuiet()
 		case 'P', 'Q':
 			overTLS := step == 'Q'
 			p := &c15Pinger{}
@@ -284,7 +307,7 @@ func c15Explorer(prog string, bound int) (*sched.Explorer, *[]*c15World) {
 	x := &sched.Explorer{Bound: bound}
 	x.New = func() *sched.Run {
 		// a leading X: the plain port is disabled (TLS-only server)
-		w := &c15World{prog: strings.TrimPrefix(prog, "X"), tls: strings.ContainsAny(prog, "qjQ"), tlsOnly: strings.HasPrefix(prog, "X")}
+		w := &c15World{prog: strings.TrimPrefix(prog, "X"), tls: strings.ContainsAny(prog, "qjQxy"), tlsOnly: strings.HasPrefix(prog, "X")}
 		worlds = append(worlds[:0], w)
 		return &sched.Run{
 			Body:    w.body,
@@ -380,7 +403,9 @@ func c15Run(c *fw.Ctx) {
 		}
 	}
 	// a port disabled in the configuration while the server runs, then Stop
-	reconf := []string{"SdT", "SidT", "SpdT", "SdTp", "SqeT", "SjeT", "SjdeT", "SdPT"}
+	reconf := []string{"SdT", "SidT", "SpdT", "SdTp", "SqeT", "SjeT", "SjdeT", "SdPT",
+		// TLS clients whose handshake fails, with the server left running, stopped or restarted afterwards
+		"Sx", "Sy", "Sxj", "Sjy", "SxyT", "SxRy", "SjxRj", "SyQT", "XSxj", "XSyT"}
 	if !phase("p1_reconfigured_bound2", reconf, 2) {
 		return
 	}
